@@ -17,6 +17,11 @@ OBLIGATIONS.append(dict(name="export_table_error_reported", harness="harness/C13
 OBLIGATIONS.append(dict(name="cleanup_unlinks_on_failure", harness="harness/C13_misc.c", sources=[], included_sources=["lib/common/src/writer/cleanup.c"],
     defines=dict(MODE=2), unwind=4, tiers=["quick", "thorough"], timeout=200, reach=["removed", "kept"],
     functions=["sqfs_writer_cleanup (lib/common/src/writer/cleanup.c)"], bound="any exit status"))
+OBLIGATIONS.append(dict(name="writer_init_fail_stop", harness="harness/C13_init.c", sources=[], included_sources=["lib/common/src/writer/init.c"],
+    incdirs=["lib/common/src"], unwind=13, tiers=["quick", "thorough"], timeout=300, fp_map={"destroy": ["destroy_stub"], "write_options": ["write_options_stub"]},
+    reach=["success", "failed_after_open", "failed_before_open"],
+    functions=["sqfs_writer_init (lib/common/src/writer/init.c)"],
+    bound="every one of the 17 steps of sqfs_writer_init may fail independently (NULL / negative error); xattr and export options symbolic"))
 FPIO = {'read_at': ['vp_file_read_at'], 'write_at': ['vp_file_write_at'], 'truncate': ['vp_file_truncate'], 'get_size': ['vp_file_get_size'], 'do_block': ['cw_do_block', 'vp_cmp_do_block']}
 OBLIGATIONS.append(dict(name="blockwriter_io_failure_h1_nb1", harness="harness/C08_blockwriter.c", sources=["lib/util/src/file_cmp.c", "lib/util/src/array.c"],
     included_sources=["lib/sqfs/src/block_writer.c"], defines=dict(H=1, NB=1, SZ=2, MODE=3), unwind=10, tiers=["quick", "thorough"], timeout=300, fp_map=FPIO,
